@@ -3,7 +3,7 @@
 # builds, existing suite passes with the patch, demo fails with it and passes without it.
 set -u
 ID=$1; M=$2
-WT=/tmp/wt/$ID; D=/tmp/mut/$ID/$M
+WT=${WTROOT:-/tmp/wt}/$ID; D=${MUTROOT:-/tmp/mut}/$ID/$M
 export GOFLAGS=-mod=mod GOPROXY=off
 OUT=$D/confirm.txt
 : > $OUT
